@@ -325,7 +325,14 @@ C14_KEYS = ['0', '1', '1.0', '1.7', '-1', '-1.5', '5', '"1"', '"a"', 'True', 'No
 C14_VALS = ['7', '"z"']
 
 
+C14_RAW = ['push(L, [])', 'push(L, {})', 'D["e"] = []', 'insert(L, 0, [])', 'L[0] = {}', 'push(L[0], 5)', 'L[0]["n"] = 1', 'D["e"] += [1]',
+           'get(D, "zz", [])', 'push(get(D, "zz", []), 1)', '[1, 2] | map(v => push(L, []))', 'L | map(v => len(v) if v == [] else 0)',
+           'push(L[len(L) - 1], 7)', 'len(L[0])', 'L[0] == []', 'D | map((k, v) => v)', 'remove(L, [])', 'index_of(L, [])', '[] in L', '{} in L']
+
+
 def c14_op_src(o):
+    if o['f'] == 'raw':
+        return C14_RAW[o['k'] - 1]
     c = o['c']
     k = C14_KEYS[o['k'] - 1]
     v = C14_VALS[o['v'] - 1]
@@ -368,7 +375,9 @@ def c14_scenario(ops):
 def c14_random(seed, n, maxlen=12):
     r = random.Random(seed)
     ops = c14_all_ops()
-    return [c14_scenario([r.choice(ops) for _ in range(r.randrange(3, maxlen + 1))]) for _ in range(n)]
+    # besides the model's alphabet: empty containers as elements / values / defaults (each a fresh object), evaluated repeatedly
+    raw = [{'f': 'raw', 'c': 'L', 'k': i + 1, 'v': 1} for i in range(len(C14_RAW))]
+    return [c14_scenario([r.choice(ops if r.random() < 0.8 else raw) for _ in range(r.randrange(3, maxlen + 1))]) for _ in range(n)]
 
 
 # ---- C04 / C08: numbers -----------------------------------------------------------------------
